@@ -361,12 +361,22 @@ func fnSort(ctx *cmdContext, args map[string]any) (output respValue, err error) 
 		count = int(count64)
 	}
 
-	// GET p1 GET p2 arrives as p1, "GET", p2: the patterns are at the even positions
+	// GET p1 GET p2 arrives as p1, "GET", p2: the patterns are at the even positions. The
+	// argument parser also takes further bare words after a GET clause for patterns; redis
+	// does not (SORT k GET a b, SORT k GET a LIMIT and SORT k GET a GET are syntax errors).
 	getPatterns := make([]string, 0, len(getPatternsAny))
 	for idx, getPattern := range getPatternsAny {
+		str := getPattern.(string)
 		if idx%2 == 0 {
-			getPatterns = append(getPatterns, getPattern.(string))
+			getPatterns = append(getPatterns, str)
+		} else if !strings.EqualFold(str, "GET") {
+			output.data = respErrorString("ERR syntax error")
+			return
 		}
+	}
+	if len(getPatternsAny) > 0 && len(getPatternsAny)%2 == 0 {
+		output.data = respErrorString("ERR syntax error")
+		return
 	}
 
 	output = ctx.dsc.sort(sourceKeyName, byPattern, destKeyName, start, count, getPatterns, hasOffset, isDesc, isAlpha)
